@@ -37,3 +37,33 @@ def register(reg):
                    "C09.digest-values-pass-unchanged": "implies(typeis(value, 'ref:DigestValue'), result is value)",
                },
                raises={"C05.rejection-is-a-value-error": "exc_is(ValueError) and not typeis(value, 'str|bytes|ref:DigestValue')"})
+
+
+def register_secure(reg):
+    """SecureField (C03): what goes to disk is method + base64 ciphertext made with the configuration's key file"""
+    KS = ["fs", "rand_ctr", "fresh", "ncalls", "Config._Config__default_keyfile@*", "KeyFile._KeyFile__key@*", "KeyFile._KeyFile__refcount@*"]
+    NAMES = "heap_unchanged('Config._Config__default_keyfile', 'KeyFile._KeyFile__key', 'KeyFile._KeyFile__refcount')"
+    reg.contract("fields.secure_field:SecureField.to_basic", params={"cfg": "ref:Config", "value": "opt:str"}, returns="opt:ref:dict", base="core:Field.to_basic", modifies=KS,
+                 ensures={
+                     "C03.an-empty-secret-is-written-as-null": "implies(not truthy(value), result is None and heap_unchanged() and fs_same())",
+                     "C03.a-secret-is-written-as-method-and-ciphertext-only": "implies(truthy(value), typeis(result, 'ref:dict') and fresh(result) and len(result) == 2 and has(result, 'method') and has(result, 'ciphertext')"
+                                                                             " and (get(result, 'method') == 'aes' or get(result, 'method') == 'xor') and typeis(get(result, 'ciphertext'), 'str'))",
+                     "C03.no-key-file-is-named-or-renamed": NAMES,
+                 },
+                 raises={"C03.no-key-file-is-named-or-renamed": NAMES})
+    reg.contract("fields.secure_field:SecureField.to_python", params={"cfg": "ref:Config", "value": "any"}, returns="opt:str", base="core:Field.to_python", modifies=KS,
+                 ensures={
+                     "C03.null-and-plain-text-pass-through": "implies(value is None or typeis(value, 'str'), result is value and heap_unchanged() and fs_same())",
+                     "C03.a-stored-secret-needs-method-and-text-ciphertext": "implies(typeis(value, 'ref:dict'), truthy(get(value, 'method')) and has(value, 'method') and has(value, 'ciphertext') and typeis(get(value, 'ciphertext'), 'str'))",
+                     "C03.no-key-file-is-named-or-renamed": NAMES,
+                 },
+                 raises={"C03.no-key-file-is-named-or-renamed": NAMES})
+
+
+_reg_digest = register
+
+
+def register(reg):
+    _reg_digest(reg)
+    register_secure(reg)
+
